@@ -85,7 +85,12 @@ def enum_cases(ctx):
                 continue
             budget = 2**21 if ctx.tier == "quick" else 2**23
             n = int(max(8, min(400, budget // 2**eff)))
-            yield dict(E=E, M=M, srbits=sr, n=n, seed=ctx.seed)
+            # input dtype: float32 mostly; the others where the format's values are exactly representable in the dtype
+            # (bfloat16: M <= 7; float16: E <= 4; float64: always)
+            alts = ["float64"] + (["bfloat16"] if M <= 7 else []) + (["float16"] if E <= 4 else [])
+            pick = (i // max(1, ctx.nshards)) % 4
+            dtype = "float32" if pick < 2 else alts[(i + pick) % len(alts)]
+            yield dict(E=E, M=M, srbits=sr, n=n, seed=ctx.seed, dtype=dtype)
 
 
 def run(case) -> CaseResult:
@@ -103,7 +108,15 @@ def run(case) -> CaseResult:
     N = 2**eff
     rng = np.random.default_rng(case["seed"] * 7919 + E * 1000 + M * 31 + sr)
     xs = inputs_for(E, M, rng, n)
-    X = torch.from_numpy(xs)[:, None].expand(len(xs), N).contiguous()
+    dtn = case.get("dtype", "float32")
+    dt = getattr(torch, dtn)
+    xt = torch.from_numpy(xs).to(dt)
+    if dt != torch.float32:
+        # the tensor the library sees holds values of its own dtype: the oracle works on exactly those values
+        fin = torch.isfinite(xt)
+        xt = xt[fin]
+        xs = xt.to(torch.float32).numpy() if dt != torch.float64 else xs[fin.numpy()]
+    X = xt[:, None].expand(len(xs), N).contiguous()
     keep = X.clone()
     d = Draws(lambda low, high, size: torch.arange(low, high).expand(size) if size[-1] == high - low else REAL_RANDINT(low, high, size))
     try:
@@ -112,7 +125,7 @@ def run(case) -> CaseResult:
     except Exception as e:  # noqa: BLE001
         res.fail(exc_bucket("C14.raises", e), f"E{E}M{M} srbits={sr}: {type(e).__name__}: {e}")
         return res
-    tag = f"sr={'all' if sr == 0 else 'partial'}"
+    tag = f"sr={'all' if sr == 0 else 'partial'}" + ("" if dtn == "float32" else f":{dtn}")
     if len(d.calls) != 1 or d.calls[0] != (0, N, tuple(X.shape)):
         res.fail(f"C14.draw-request:{tag}", f"E{E}M{M} srbits={eff}: torch.randint requested {d.calls[:2]}, expected one call (0, {N}, {tuple(X.shape)})")
         return res
@@ -121,7 +134,8 @@ def run(case) -> CaseResult:
     if Qt.shape != X.shape or Qt.dtype != X.dtype:
         res.fail("C14.shape", f"{tuple(Qt.shape)} {Qt.dtype}")
         return res
-    Q = Qt.numpy().astype(np.float64)
+    Qn = Qt.to(torch.float64).numpy()   # (exact: every format value is representable in the input dtype by the choice above)
+    Q = Qn
     ax, lo, hi, sp = fo.neighbours(E, M, xs)
     aQ = np.abs(Q)
     okn = (aQ == lo[:, None]) | (aQ == hi[:, None])
@@ -130,7 +144,7 @@ def run(case) -> CaseResult:
         j = np.where(~okn[i])[0][0]
         res.fail(f"C14.not-a-neighbour:{tag}", f"E{E}M{M} srbits={eff} x={float(xs[i]).hex()} draw={j} -> {float(Q[i, j]).hex()} (neighbours {lo[i].hex()}, {hi[i].hex()})")
         return res
-    sg = (np.signbit(Qt.numpy()) == np.signbit(xs)[:, None])
+    sg = (np.signbit(Qn) == np.signbit(xs)[:, None])
     if not sg.all():
         i = np.where(~sg.all(1))[0][0]
         res.fail(f"C14.sign:{tag}", f"E{E}M{M} x={float(xs[i]).hex()}")
@@ -154,30 +168,30 @@ def run(case) -> CaseResult:
     # independence: different draws per element -> each position equals the single-element result for its (x, draw)
     g = torch.Generator().manual_seed(case["seed"] + 11)
     R = torch.randint(0, N, (len(xs), 16), generator=g)
-    Xi = torch.from_numpy(xs)[:, None].expand(len(xs), 16).contiguous()
+    Xi = xt[:, None].expand(len(xs), 16).contiguous()
     d2 = Draws(lambda low, high, size: R.clone())
     with patch("torch.randint", d2):
-        Qi = fmt.quantise(Xi).numpy()
-    want = np.take_along_axis(Qt.numpy(), R.numpy(), axis=1)
-    if not np.array_equal(Qi.view(np.int32), want.view(np.int32)):
-        i, j = [int(v[0]) for v in np.where(Qi.view(np.int32) != want.view(np.int32))]
+        Qi = fmt.quantise(Xi).to(torch.float64).numpy()
+    want = np.take_along_axis(Qn, R.numpy(), axis=1)
+    if not np.array_equal(Qi.view(np.int64), want.view(np.int64)):
+        i, j = [int(v[0]) for v in np.where(Qi.view(np.int64) != want.view(np.int64))]
         res.fail(f"C14.independence:{tag}", f"E{E}M{M} srbits={eff}: element ({i},{j}) with x={float(xs[i]).hex()} draw={int(R[i, j])} gave {float(Qi[i, j]).hex()}, single-element result {float(want[i, j]).hex()}")
     # an input with stride-0 dimensions (expand / broadcast_to, the gradient of sum()): same request, same result, element-wise draws
-    Xe = torch.from_numpy(xs)[:, None].expand(len(xs), N)
+    Xe = xt[:, None].expand(len(xs), N)
     d3 = Draws(lambda low, high, size: torch.arange(low, high).expand(size) if size[-1] == high - low else REAL_RANDINT(low, high, size))
     try:
         with patch("torch.randint", d3):
             Qe = fmt.quantise(Xe)
         if len(d3.calls) != 1 or d3.calls[0] != (0, N, tuple(Xe.shape)):
             res.fail(f"C14.draw-request:expanded-input", f"E{E}M{M} srbits={eff}: for an expanded (stride-0) input torch.randint was asked for {d3.calls[:2]}, expected (0, {N}, {tuple(Xe.shape)}): elements along the expanded dimension would share draws")
-        elif not np.array_equal(Qe.numpy().view(np.int32), Qt.numpy().view(np.int32)):
+        elif not np.array_equal(Qe.to(torch.float64).numpy().view(np.int64), Qn.view(np.int64)):
             res.fail(f"C14.expanded-input", f"E{E}M{M} srbits={eff}: quantising an expanded view gives other values than its contiguous copy for the same draws")
     except Exception as e:  # noqa: BLE001
         res.fail(exc_bucket("C14.raises:expanded-input", e), f"E{E}M{M} srbits={sr}: {type(e).__name__}: {e}")
     nt = int(((p > 0) & (p < 1)).sum())
     res.evals = len(xs)
     res.nontrivial_n = nt
-    res.labels += [f"E{E}", tag, f"srbits={eff}"]
+    res.labels += [f"E{E}", tag, f"srbits={eff}", f"dtype={dtn}"]
     res.sample = dict(format=f"E{E}M{M}", srbits=eff, draws_enumerated=N, inputs=len(xs), fractional=nt,
                       example=dict(x=float(xs[0]).hex(), P=float(P[0]), p=float(p[0])))
     return res
@@ -199,7 +213,7 @@ def selftest():
 CHECK = Check(
     id="C14",
     parts=[Part("enumerate-draws", run, enumerate=enum_cases, exhaustive={"quick": False, "thorough": False})],
-    rule=("for each (format E2..7 x M0..10, srbits in 1..12 and the default when 23-M <= 20) a block of float32 inputs (uniform and "
+    rule=("for each (format E2..7 x M0..10, srbits in 1..12 and the default when 23-M <= 20) a block of inputs held in float32 - or, for half of the blocks, in float64 / bfloat16 (M <= 7) / float16 (E <= 4), where every format value is representable - (uniform and "
           "log-uniform over the range, subnormals, representable values, midpoints and quarter points, +-max and beyond, +-0); "
           "torch.randint is substituted so that ONE quantise call enumerates all 2^srbits draws for every input: P(round away) is "
           "counted, not estimated. quick: every format with srbits 1, 2, a seeded 40% of the others and the default (all bits) for M >= 5; "
